@@ -641,6 +641,17 @@ func (e *Enc) evalCall(n *CallE, env *Env) (TV, error) {
 		return TV{}, fmt.Errorf("len of %s", args[0].Sort)
 	case "contains":
 		return TV{fmt.Sprintf("(str.contains %s %s)", args[0].S, args[1].S), sBool, tBool}, nil
+	case "containsAny":
+		// expands over the characters of a literal second argument
+		lit, ok := smtStringLit(args[1].S)
+		if !ok {
+			return TV{}, fmt.Errorf("containsAny needs a literal character set")
+		}
+		var ds []string
+		for i := 0; i < len(lit); i++ {
+			ds = append(ds, fmt.Sprintf("(str.contains %s %s)", args[0].S, smtString(lit[i:i+1])))
+		}
+		return TV{or(ds...), sBool, tBool}, nil
 	case "hasPrefix":
 		return TV{fmt.Sprintf("(str.prefixof %s %s)", args[1].S, args[0].S), sBool, tBool}, nil
 	case "hasSuffix":
@@ -767,4 +778,37 @@ func (e *Enc) useLemma(u *CallE, env *Env) {
 	} else {
 		e.assert(f)
 	}
+}
+
+// smtStringLit decodes an SMT string literal produced by smtString.
+func smtStringLit(t string) (string, bool) {
+	if len(t) < 2 || t[0] != '"' || t[len(t)-1] != '"' {
+		return "", false
+	}
+	body := t[1 : len(t)-1]
+	var b strings.Builder
+	for i := 0; i < len(body); i++ {
+		c := body[i]
+		if c == '"' {
+			if i+1 < len(body) && body[i+1] == '"' {
+				b.WriteByte('"')
+				i++
+				continue
+			}
+			return "", false
+		}
+		if c == '\\' && strings.HasPrefix(body[i:], "\\u{") {
+			j := strings.IndexByte(body[i:], '}')
+			if j < 0 {
+				return "", false
+			}
+			var v int
+			fmt.Sscanf(body[i+3:i+j], "%x", &v)
+			b.WriteByte(byte(v))
+			i += j
+			continue
+		}
+		b.WriteByte(c)
+	}
+	return b.String(), true
 }
